@@ -373,6 +373,17 @@ def pinned_traces(tier):
         evs += [dict(base, op="c15.add", img=A, existing=k_, src={"via": "stream", "pos": 0}) for k_ in range(3)]
         evs += [{"op": "checkpoint", "sink": "seekable"}, {"op": "restart"}]
         out.append({"property": ID, "seed": "image-held-by-a-layout-%s" % dk, "tier": "pinned", "config": {"pinned": True}, "start": [{"deck": dk}], "events": evs})
+    # a template with a logo on a layout no slide uses (layout_logo): new image, the layout removed, another new image, the logo's bytes again
+    for k_ in (10, 3):
+        evs = [{"op": "add_slide", "layout": 0},
+               dict(base, op="c15.add", img={"fmt": "PNG", "w": 4, "h": 4, "seed": 95, "mode": "RGB", "dpi": None}, src={"via": "stream", "pos": 0}),
+               {"op": "remove_layout", "layout": k_},
+               dict(base, op="c15.add", img={"fmt": "PNG", "w": 5, "h": 4, "seed": 96, "mode": "RGB", "dpi": None}, src={"via": "stream", "pos": 0}),
+               dict(base, op="c15.add", img=A, existing=0, src={"via": "stream", "pos": 0}), dict(base, op="c15.add", img=A, existing=0, src={"via": "path", "fname": "logo.png"}),
+               {"op": "checkpoint", "sink": "seekable"}, {"op": "restart"},
+               dict(base, op="c15.add", img=A, existing=0, src={"via": "stream", "pos": 0}), {"op": "checkpoint", "sink": "seekable"}]
+        out.append({"property": ID, "seed": "logo-on-an-unused-layout-%d" % k_, "tier": "pinned", "config": {"pinned": True},
+                    "start": [{"deck": "default", "xform": [{"kind": "layout_logo", "k": k_, "seed": 3}]}], "events": evs})
     # the same path names a different file of the same length, rewritten within one (simulated) second: BMPs of one pixel size
     for fmt_ in ("BMP", "TIFF"):
         evs = [{"op": "add_slide", "layout": 6}]
